@@ -22,11 +22,18 @@ class Fin:
 
 
 def _site():
+    """The innermost monkeytype frame on the stack as `file:function`; when the hook was reached through Python-level library code
+    other than `typing` (abc's subclass check, inspect, functools ...), the library function it called is appended (`:via-abc.py:...`)."""
     f = sys._getframe(2)
+    inner = None  # the frame just inside (called from) the frame under inspection
     while f is not None:
         fn = f.f_code.co_filename
         if fn.startswith(_MT) or os.path.realpath(fn).startswith(_MT):
-            return os.path.basename(fn) + ":" + f.f_code.co_name
+            site = os.path.basename(fn) + ":" + f.f_code.co_name
+            if inner is not None and os.path.basename(inner.f_code.co_filename) not in ("typing.py", "tripwire.py") and not inner.f_code.co_filename.startswith(_MT):
+                site += ":via-" + os.path.basename(inner.f_code.co_filename) + ":" + inner.f_code.co_name
+            return site
+        inner = f
         f = f.f_back
     return None
 
